@@ -296,18 +296,40 @@ pub fn run(tier: Tier) -> Report {
     let mut parts = vec![];
     let mk = |k: String, d: String, c: Value| Failure { key: k, case: c, detail: d };
     // (a)+(b) all scenarios of the small alphabet, all schedules within the bound
-    let alpha = alphabet(tier.pick(2, 3), 3, tier.pick(1, 2));
-    let all = scenarios(&alpha, tier.pick(3, 4));
+    // quick: small alphabet (2 URIs incl. the scheme twins, 3 request kinds, 1 edit), <= 3 operations;
+    // thorough: large alphabet (3 URIs, 2 edits) <= 3 operations at one bound more, plus the small
+    // alphabet up to 4 operations at bound 1
+    let small = alphabet(2, 3, 1);
+    let large = alphabet(3, 3, 2);
     let bound = tier.pick(2, 3);
+    let mut all: Vec<(Vec<Op>, usize)> = vec![]; // (scenario, bound for it)
+    match tier {
+        Tier::Quick => {
+            for sc in scenarios(&small, 3) {
+                let b = if sc.len() >= 3 { bound - 1 } else { bound };
+                all.push((sc, b));
+            }
+        }
+        Tier::Thorough => {
+            for sc in scenarios(&large, 3) {
+                let b = if sc.len() >= 3 { bound - 1 } else { bound };
+                all.push((sc, b));
+            }
+            for sc in scenarios(&small, 4).into_iter().filter(|s| s.len() == 4) {
+                all.push((sc, 1));
+            }
+        }
+    }
+    let alpha = if tier == Tier::Quick { small.clone() } else { large.clone() };
     let f: Vec<Failure> = all
         .par_iter()
-        .filter_map(|sc| {
-            // longest scenarios one bound lower, real capacities only
-            let long = sc.len() >= tier.pick(3, 4);
-            let configs: Vec<(usize, Option<usize>, bool)> = if long {
-                vec![(bound - 1, None, true), (bound - 2, Some(1), true), (bound - 2, None, false)]
+        .filter_map(|(sc, b)| {
+            let b = *b;
+            let full = sc.len() <= 2;
+            let configs: Vec<(usize, Option<usize>, bool)> = if full {
+                vec![(b, None, true), (b, Some(1), true), (b - 1, Some(2), true), (b - 1, None, false)]
             } else {
-                vec![(bound, None, true), (bound, Some(1), true), (bound - 1, Some(2), true), (bound - 1, None, false)]
+                vec![(b, None, true), (b.saturating_sub(1), Some(1), true), (b.saturating_sub(1), None, false)]
             };
             for (b, clamp, diag) in configs {
                 let (n, f) = eval_scenario(sc, diag, b, clamp, None, false, false);
@@ -319,7 +341,8 @@ pub fn run(tier: Tier) -> Report {
             None
         })
         .collect();
-    parts.push(json!({"part": "scenarios", "alphabet_ops": alpha.len(), "max_ops": tier.pick(3,4), "scenarios": all.len(), "failing": f.len()}));
+    let all: Vec<Vec<Op>> = all.into_iter().map(|(s, _)| s).collect();
+    parts.push(json!({"part": "scenarios", "alphabet_ops": alpha.len(), "max_ops": 3, "extra_small_alphabet_4_operations": tier == Tier::Thorough, "scenarios": all.len(), "failing": f.len()}));
     fails.extend(f);
     // (c) bursts larger than the channel capacities, bounded stdout with a draining client
     // (delay-bounded: every deviation from the default schedule costs one, also at blocking
